@@ -30,18 +30,10 @@ impl PartialEq for Color {
 }
 impl Ord for Color {
     fn cmp(&self, other: &Self) -> std::cmp::Ordering {
-        match (self, other) {
-            (Color::Hsla(a), Color::Hsla(b)) => cmp_hsla(a, b),
-            (Color::Hsla(a), Color::Hwba(b)) => cmp_hsla(a, &Hsla::from(b)),
-            (Color::Hwba(a), Color::Hsla(b)) => cmp_hsla(&Hsla::from(a), b),
-            (a, b) => a.to_rgba().cmp(&b.to_rgba()),
-        }
+        // Compare all colors by their (toleranced) rgba channels, so the
+        // notation that created a color does not matter.
+        self.to_rgba().cmp(&other.to_rgba())
     }
-}
-fn cmp_hsla(a: &Hsla, b: &Hsla) -> std::cmp::Ordering {
-    // A channel may be NaN, the rgba comparison handles that.
-    a.partial_cmp(b)
-        .unwrap_or_else(|| Rgba::from(a).cmp(&Rgba::from(b)))
 }
 impl PartialOrd for Color {
     fn partial_cmp(&self, other: &Self) -> Option<std::cmp::Ordering> {
